@@ -24,7 +24,7 @@ META = {
         "values are symbolic (yields, variations, uncertainties > 0), names concrete; the fault position is enumerated",
     ],
     "bounds": {
-        "quick": "6 well-formed base shapes (1-2 channels, 1-3 samples, 1-3 bins) x 10 fault classes x every applicable position (single faults)",
+        "quick": "7 well-formed base shapes (1-2 channels, 1-3 samples, 1-3 bins) x 10 fault classes x every applicable position (single faults)",
         "thorough": "every single fault at every position of the six bases, of every member of family F whose POI is mu and of 24 seeded shapes (about 2100 faulty specifications)",
     },
     "stubs": [],
@@ -44,6 +44,8 @@ def bases(tier="quick", seed=0):
                      channel("B", sample("b", 2, shapefactor("sf"), staterror("stB", 2)), sample("c", 2, staterror("stB", 2)))], None))
     B.append(("b5", [channel("A", sample("s", 3, normfactor(), histosys("h", 3)), sample("b", 3, histosys("h", 3), shapesys("u", 3)))], None))
     B.append(("b6", [channel("Z", sample("s", 1, normfactor())), channel("Y", sample("s", 2, normfactor(), normsys("k")), sample("b", 2, normsys("k")))], None))
+    B.append(("b7", [channel("CR", sample("a", 2, normfactor()), sample("bkg", 2, normsys("k"))),
+                     channel("SR", sample("a", 2, normfactor()), sample("bkg", 2, normsys("k"), normfactor("nb")))], None))
     if tier != "quick":
         # thorough: every member of family F whose POI is "mu" and 24 seeded shapes as further bases
         for sh in shapes.family_core() + shapes.family_plus(seed, 24):
@@ -102,6 +104,17 @@ def faults(base):
                         s = copy.deepcopy(spec0)
                         s["channels"][ci]["samples"][si]["data"] = ["$n"] * (nb + d)
                         emit("len:sample", f"ch{ci}.s{si}{d:+d}", s, False)
+                # ... and compensating pairs: the same sample one bin too long here and one too short in another channel
+                for cj, c2 in enumerate(chans):
+                    if cj == ci:
+                        continue
+                    nb2 = len(c2["samples"][0]["data"])
+                    for sj, smp2 in enumerate(c2["samples"]):
+                        if sj > 0 and smp2["name"] == smp["name"] and nb2 - 1 >= 1:
+                            s = copy.deepcopy(spec0)
+                            s["channels"][ci]["samples"][si]["data"] = ["$n"] * (nb + 1)
+                            s["channels"][cj]["samples"][sj]["data"] = ["$n"] * (nb2 - 1)
+                            emit("len:sample-pair", f"ch{ci}.s{si}+1/ch{cj}.s{sj}-1", s, False)
             for mi, m in enumerate(smp["modifiers"]):
                 if _datalen(m) is None:
                     continue
